@@ -14,7 +14,7 @@ func init() {
 	register("C15",
 		"Structural necessary conditions of C15 decided from /repo's SSA: (nul-first) in the function that consumes `git config --list -z`, every search for the key/value separator LF operates on a value already bounded by a search for the record terminator NUL, so a key without a value cannot swallow the next entry; (total) every index/slice expression of the gitconfig reader, the key-prefix matcher and the refgroup key handling is discharged by the bounds engine and the record cursor advances by at least one byte per iteration; (scope) the listing command carries no --local/--global/--system/--file restriction, group membership is decided by the key-prefix matcher whose truth table is checked (boundary byte '.'), and a group is augmented from exactly the keys name/include/includeregexp/exclude/excluderegexp with the right polarity and pattern kind, folded in listing order. Not decided: agreement with git's own parser on arbitrary configurations.",
 		[]string{"git config --list -z prints key LF value NUL per entry, key NUL for a valueless key", "git lower-cases section and variable names"},
-		ruleC15NulFirst, ruleC15Total, ruleC15Progress, ruleC15Scope)
+		ruleC15NulFirst, ruleC15Total, ruleC15Progress, ruleC15Scope, ruleC15EachGroup)
 	register("C16",
 		"Structural necessary conditions of C16 decided from /repo's SSA: (bounds) every index/slice expression in package git's object and listing parsers is discharged from dominating facts in a zone domain (an undischarged obligation is a crash on some input); (progress) each parser cursor advances by at least one byte on every successful step, so no input loops forever; (grammar) tree entry = octal mode, SP, name, NUL, raw id whose length constant agrees between the length test, the copy bounds, the advance and len(OID); the commit parser appends parents only under `parent` and has single, duplicate-rejecting arms for `tree`, the tag parser for `object` and `type`; the header block handed to the iterator ends at the first blank line; (formats) the for-each-ref format has four space-separated atoms in the order the reader indexes them and cat-file's default three-field header is read as fields 0,1,2. Not decided: losslessness (re-serialisation equality), behaviour beyond absence of panics and non-termination.",
 		[]string{"library post-conditions of strings/bytes Index*, Split, HasPrefix; bufio ReadString/ReadBytes return the delimiter on a nil error", "zone (difference-bound) abstraction of int arithmetic; wrap-around of int is not modelled"},
@@ -975,4 +975,117 @@ func (c *Ctx) entryKeyLiteralAt(b *ssa.BasicBlock) string {
 		}
 	}
 	return ""
+}
+
+// ruleC15EachGroup: every refgroup symbol that occurs in the listing is
+// built from its own section exactly once: the only thing that can stop a
+// symbol from being augmented is that this very symbol was handled before.
+func ruleC15EachGroup(c *Ctx) {
+	// the reader: calls Configger.GetConfig with the constant "refgroup"
+	var reader *ssa.Function
+	for _, f := range c.ModFns {
+		if pkgOf(f) != modPath+"/internal/refopts" {
+			continue
+		}
+		allInstrs(f, func(in ssa.Instruction) {
+			if call, ok := in.(*ssa.Call); ok && call.Call.IsInvoke() && call.Call.Method.Name() == "GetConfig" {
+				if s, ok := constStr(call.Call.Args[0]); ok && s == "refgroup" {
+					reader = f
+				}
+			}
+		})
+	}
+	if reader == nil {
+		c.violate("C15.each-group", "reader", token.NoPos, "", "nothing lists the refgroup.* section of gitconfig")
+		return
+	}
+	name := fnName(reader)
+	var l *loop
+	for _, x := range loopsOf(reader) {
+		if c.rangeOverField(reader, x, "Entries") {
+			l = x
+		}
+	}
+	if l == nil {
+		c.violate("C15.each-group", "loop", reader.Pos(), name, "the refgroup entries are not visited by a loop over Config.Entries")
+		return
+	}
+	// the augment call and the symbol it is made for
+	var aug *ssa.Call
+	for b := range l.Blocks {
+		for _, in := range b.Instrs {
+			if call, ok := in.(*ssa.Call); ok {
+				if cal := call.Call.StaticCallee(); cal != nil && c.inRuleScope(cal) && cal.Signature.Results().Len() == 1 && isErrorType(cal.Signature.Results().At(0).Type()) {
+					aug = call
+				}
+			}
+		}
+	}
+	if aug == nil {
+		c.violate("C15.each-group", "augment", reader.Pos(), name, "listed groups are not augmented from their own sections")
+		return
+	}
+	// symbol: the RefGroupSymbol-typed value split from the entry key in this iteration
+	var symbol ssa.Value
+	for b := range l.Blocks {
+		for _, in := range b.Instrs {
+			if ex, ok := in.(*ssa.Extract); ok && isNamed(ex.Type(), modPath+"/sizes", "RefGroupSymbol") {
+				symbol = ex
+			}
+		}
+	}
+	if symbol == nil {
+		c.undecided("C15.each-group", "symbol", aug.Pos(), name, "cannot identify the group symbol derived from the entry key")
+		return
+	}
+	// guards of the augment call inside the loop
+	bad := ""
+	for _, f := range factsAt(aug.Block()) {
+		if !l.Blocks[f.If.Block()] || f.If.Block() == l.Head {
+			continue
+		}
+		cond, truth := normCond(f.Cond, f.Truth)
+		switch x := cond.(type) {
+		case *ssa.BinOp:
+			// symbol == "" false
+			if (x.X == symbol || x.Y == symbol) && (x.Op == token.EQL || x.Op == token.NEQ) {
+				continue
+			}
+		case *ssa.Lookup:
+			// seen[symbol] false
+			if c.resolve(x.Index) == symbol && !truth {
+				continue
+			}
+		case *ssa.Extract:
+			if lk, ok := x.Tuple.(*ssa.Lookup); ok && c.resolve(lk.Index) == symbol {
+				continue
+			}
+		}
+		bad = strings.TrimSpace(cond.String())
+	}
+	if bad != "" {
+		c.violate("C15.each-group", "guard", aug.Pos(), name, "whether a listed group is built from its section depends on a further condition ("+bad+")")
+	} else {
+		c.hold("C15.each-group", "guard", aug.Pos(), "a listed symbol is augmented unless it is empty or this very symbol was handled before")
+	}
+	// the seen-set is only ever extended with this iteration's symbol
+	okSeen := true
+	nUpd := 0
+	allInstrs(reader, func(in ssa.Instruction) {
+		mu, ok := in.(*ssa.MapUpdate)
+		if !ok {
+			return
+		}
+		if _, isBoolMap := mu.Value.Type().Underlying().(*types.Basic); !isBoolMap {
+			return
+		}
+		nUpd++
+		if c.resolve(mu.Key) != symbol {
+			okSeen = false
+			c.violate("C15.each-group", "seen-key", mu.Pos(), name, "a symbol other than the one just handled is marked as done: that group's own entries (e.g. a parent listed after its subgroup) would never be read")
+		}
+	})
+	if okSeen && nUpd > 0 {
+		c.hold("C15.each-group", "seen-key", aug.Pos(), "only the symbol just handled is marked as done")
+	}
 }
